@@ -77,6 +77,7 @@ def scenarios(tier):
             L.append("stale-rebase %s %s" % (fl, ep))
             L.append("leak2 %s %s" % (fl, ep))
             L.append("delhook %s %s" % (fl, ep))
+            L.append("notifyhook %s %s" % (fl, ep))
             for who in ("provided", "required", "name"):
                 L.append("hashhook %s %s %s" % (fl, ep, who))
             if fl == "verifying":
@@ -92,6 +93,7 @@ def scenarios(tier):
             if ep in ("lookup", "lookup1", "queryAdapter", "adapter_hook", "queryMultiAdapter"):
                 L.append("midwalk %s %s" % (fl, ep))
             L.append("shrink %s %s" % (fl, ep))
+            L.append("midrebase %s %s" % (fl, ep))
         L.append("pychanged %s lookup" % fl)
     return L + inmut_lines(tier)
 
